@@ -13,7 +13,15 @@ at most N+1 nodes, the invariant holds after edit histories of any length that s
 
 Copies are also PRE-STATES: "original forest + a copy / unpickled copy of any subtree" followed by one operation or
 query on the copy (copy_then_edit_*, core_copy_then_edit), so bookkeeping that a copy fails to rebuild shows up even
-if the fresh copy looks right; both trees are checked afterwards.
+if the fresh copy looks right; both trees are checked afterwards.  Every level that can own a grid is seen owning one
+in some state (generic nodes, cores, assemblies, and blocks with a pin grid: copy_gridded_typed, copy_core_and_reactor,
+core_*), because each type-specific copy hook has to re-link "grid -> owner" and "location -> parent's grid" itself.
+
+Order of the all-descendants queries: the property asks for "exactly the objects a naive walk of the child lists would,
+each once, in child order"; the getChildren documentation fixes which walk (children first, "[child1, child2, child3,
+grandchild1, ...]", then the query "recursively" on each child).  check_deep therefore demands the exact sequence of
+that recursive walk (walk_deep), and traversal_deep_order enumerates every tree on 6 (7, 8) nodes, the smallest size
+on which walking level by level and walking subtree by subtree give different sequences.
 
 Documented preconditions only: ``add``/``insert``/``setChildren`` take parentless objects that do not contain the
 target (the API does not re-parent), ``remove`` takes an actual child.  Raw list methods ``append``/``extend`` are out
@@ -115,6 +123,16 @@ def walk_pre(o):
     return out
 
 
+def walk_deep(o):
+    """The naive ALL-DESCENDANTS walk of the child lists, as documented for getChildren(deep=True): the children come
+    first ("[child1, child2, child3, grandchild1, ...]"), then the query is repeated "recursively" on every child, in
+    child order -- so everything below one child stays together, in front of everything below the next child."""
+    out = list(o)
+    for c in o:
+        out += walk_deep(c)
+    return out
+
+
 def walk_gen(o, g):
     """naive list of the generation-g descendants (g >= 1) in child order"""
     if g == 1:
@@ -174,8 +192,14 @@ def check_forest(ctx, F, tag):
 
 def check_deep(ctx, o, tag):
     """getChildren(deep=True) against the naive walk: same objects, each once, parents before their descendants and
-    siblings in child order; for trees of depth <= 2 exactly the documented [children..., grandchildren...]."""
+    siblings in child order; for trees of depth <= 2 exactly the documented [children..., grandchildren...]; for any
+    depth exactly the naive recursive walk of the child lists (walk_deep), which is also stated as a relation between
+    query results: the result for a node is its child list followed by the results for its children, in child order."""
     got = o.getChildren(deep=True)
+    ctx.check(tag + ": deep = the naive recursive walk (children, then the same walk below child 1, child 2, ...)",
+              same_objs(got, walk_deep(o)))
+    ctx.check(tag + ": deep(node) = children(node) + deep(child 1) + deep(child 2) + ... (results of the same query)",
+              same_objs(got, list(o) + [x for c in o for x in c.getChildren(deep=True)]))
     naive = walk_pre(o)
     ids = [id(x) for x in got]
     ctx.check(tag + ": deep = the naive walk's objects, each once",
@@ -484,8 +508,67 @@ def traversal_predicate(ctx, N):
               same_objs(filter(pred, r), r.getChildren(predicate=pred)))
 
 
+def model_deep(F, i):
+    """walk_deep on the MODEL (indices)"""
+    out = list(F.kids[i])
+    for k in F.kids[i]:
+        out += model_deep(F, k)
+    return out
+
+
+def model_gen(F, i, g):
+    if g == 1:
+        return list(F.kids[i])
+    return [x for k in F.kids[i] for x in model_gen(F, k, g - 1)]
+
+
+# three fixed predicates over the node ids that accept objects of several levels (no forking)
+ID_PREDICATES = (("even id", lambda i: i % 2 == 0), ("odd id", lambda i: i % 2 == 1), ("id not a multiple of 3", lambda i: i % 3 != 0))
+
+
+@harness("C01", bounds="every single-rooted TREE on N=6, 7 (thorough 7, 8) generic Composites (parent vector symbolic, "
+                       "enumerated by forking): trees with >= 3 levels below the query root AND real branching, which "
+                       "the N<=5 forests of the other harnesses cannot hold; on each tree, at EVERY node: all-descendants "
+                       "queries (getChildren / iterChildren, deep=True, also with generationNum=1 and with three fixed "
+                       "id predicates) and every generation 1..N against the naive walks of the model", stubs=STUBS,
+         max_paths=20000, instances={"quick": [dict(N=6), dict(N=7)], "thorough": [dict(N=7), dict(N=8)]})
+def traversal_deep_order(ctx, N):
+    P = [None] + [ctx.int("p%d" % i, 0, i - 1) for i in range(1, N)]
+    F = build_forest(P, N)
+    objs = F.objs
+    # rare corner for the canary: root > (1 > 2 > 3, 4 > 5): the smallest tree on which "level by level" and
+    # "subtree by subtree" differ
+    rare = AND(P[1] == 0, P[2] == 1, P[3] == 2, P[4] == 0, P[5] == 4, *[P[i] == 0 for i in range(6, N)])
+    okDeep = okIter = okG1 = okGen = okPred = okOnce = True
+    for i, o in enumerate(objs):
+        want = [objs[k] for k in model_deep(F, i)]
+        got = o.getChildren(deep=True)
+        okDeep &= same_objs(got, want)
+        okOnce &= len({id(x) for x in got}) == len(got) == len(F.subtree(i)) - 1
+        okIter &= same_objs(o.iterChildren(deep=True), want)
+        okG1 &= same_objs(o.getChildren(deep=True, generationNum=1), want)
+        for _label, pr in ID_PREDICATES:
+            f = lambda x: pr(F.idx(x))   # noqa: E731
+            wantp = [x for x in want if f(x)]
+            okPred &= same_objs(o.getChildren(deep=True, predicate=f), wantp) and \
+                same_objs(o.iterChildren(deep=True, predicate=f), wantp)
+        for g in range(1, N + 1):
+            wg = [objs[k] for k in model_gen(F, i, g)]
+            okGen &= same_objs(o.getChildren(generationNum=g), wg) and same_objs(o.iterChildren(generationNum=g), wg)
+    if ctx.canary:
+        okDeep = AND(okDeep, NOT(rare))
+    ctx.check("at every node: all descendants = the naive recursive walk of the child lists (children, then everything "
+              "below child 1, then everything below child 2, ...)", okDeep)
+    ctx.check("at every node: every descendant exactly once", okOnce)
+    ctx.check("at every node: iterChildren(deep=True) yields the same", okIter)
+    ctx.check("at every node: deep=True with generationNum=1 is the same query", okG1)
+    ctx.check("at every node: a predicate filters the all-descendants result without re-ordering it", okPred)
+    ctx.check("at every node: generation g = the naive generation walk, g = 1..N (empty beyond the depth)", okGen)
+    check_forest(ctx, F, "tree")
+
+
 FLAGSETS = [(), ("FUEL",), ("CLAD",), ("FUEL", "DEPLETABLE")]
-SPECS = [("FUEL",), ("CLAD",), ("FUEL", "DEPLETABLE"), [("FUEL",), ("CLAD",)], None]
+SPECS =[("FUEL",), ("CLAD",), ("FUEL", "DEPLETABLE"), [("FUEL",), ("CLAD",)], None]
 
 
 def mkflags(names):
@@ -663,6 +746,7 @@ def copy_subtree_generic(ctx, N, how):
     # of that shape would (no answer may come from the original's objects)
     graft_copy(ctx, F, r, cp, how)
     check_forest(ctx, F, "original and copy after " + how)
+    check_grids(ctx, F, "original and copy after " + how)
     ctx.check("original locations still live in the original grids",
               all(F.objs[i].spatialLocator.grid is F.objs[F.par[i]].spatialGrid for i in range(N) if F.par[i] is not None))
     check_deep(ctx, cp, "copy")
@@ -812,6 +896,7 @@ def _copy_then_edit_generic(ctx, P, rS, tS, oS, kS, memo, op, N, how):
         ctx.check("on the copy: an object taken out keeps its own subtree",
                   all(F.subtree(g) == subBefore[g] for g in gone))
     check_forest(ctx, F, how + " then " + op)
+    check_grids(ctx, F, how + " then " + op)
     for x in set([F.root(t), F.root(r)] + gone):
         check_deep(ctx, objs[x], how + " then " + op)
 
@@ -1162,6 +1247,7 @@ def copy_subtree_typed(ctx, how):
                       x.p.id.getLinkedComponent() is [z for z in x.parent if z.name == "fuel"][0])
     graft_copy(ctx, F, r, cp, how)      # queries (`in`, index, len, children) on the copy as on an original
     check_forest(ctx, F, "original and copy after " + how)
+    check_grids(ctx, F, "original and copy after " + how)
     check_typed_extras(ctx, F, "original after " + how)
     if not isinstance(cp, components.Component):
         ctx.check("the copy's leaf components are those of the naive walk",
@@ -1284,6 +1370,7 @@ def _copy_then_edit_typed(ctx, D, rS, biS, xS, op, how):
     ctx.check("on the copy: objects taken out have no parent and a detached location", okGone)
     tag = how + " then " + op
     check_forest(ctx, F, tag)                  # all objects: the original tree, the edited copy, fresh objects
+    check_grids(ctx, F, tag)
     check_typed_extras(ctx, F, tag + " (original)")
     if a2 is not None:
         check_typed_extras(ctx, F, tag + " (copy)", a2)
@@ -1296,6 +1383,152 @@ def _copy_then_edit_typed(ctx, D, rS, biS, xS, op, how):
         check_deep(ctx, objs[x], tag)
 
 
+# ---------------------------------------------------------------------------
+# typed trees whose BLOCKS carry a grid of their own (pin grid), copied and then edited
+#
+# Every level that can own a grid must be seen owning one: the type-specific copy hooks (Block.__deepcopy__, ...) and
+# the generic unpickle step each have to re-link "grid -> owner" and "child location -> parent's grid" themselves.
+
+
+def give_pin_grid(b):
+    """The layout Block.autoCreateSpatialGrids produces (not called here: it needs a wire component for the pitch):
+    a hex grid owned by the block, ONE multi-cell location shared by the components of multiplicity > 1, a coordinate
+    location at the centre for those of multiplicity 1."""
+    g = grids.HexGrid.fromPitch(1.0, numRings=0, armiObject=b)
+    b.spatialGrid = g
+    multi = grids.MultiIndexLocation(grid=g)
+    for i, j in ((0, 0), (1, 0), (0, 1)):
+        multi.append(g[i, j, 0])
+    for c in b:
+        c.spatialLocator = multi if c.getDimension("mult") > 1 else grids.CoordinateLocation(0.0, 0.0, 0.0, g)
+
+
+def loc_cells(loc):
+    """the location itself and, for a multi-cell location, its cells"""
+    return [loc] + (list(loc) if isinstance(loc, grids.MultiIndexLocation) else [])
+
+
+# Incidental finding (candidate defect, kept out of the green check by the flag): MultiIndexLocation.detachedCopy is
+# shallow.  After block.remove(component) of a component located by a multi-cell location the component's location has
+# grid None, but every CELL of it still lives in the block's grid -- and is the very cell object the remaining
+# components of the block use.  "An object taken out of the model has ... a detached location" holds only on the surface.
+# Repro: gridded HexBlock, fuel and clad sharing one MultiIndexLocation of grid cells (what autoCreateSpatialGrids
+# builds); b.remove(fuel); [c.grid for c in fuel.spatialLocator] is [b.spatialGrid]*n and list(fuel.spatialLocator)[k] is
+# list(clad.spatialLocator)[k].  VERIF_SHOW_KNOWN_DEFECTS=1 shows the violations.
+KNOWN_DEFECT_multi_location_detach = False  # repaired in /repo (fix: 5bc921b)
+
+
+def check_grids(ctx, F, tag):
+    """every grid of every object (original, copy, fresh) points at its owner; a child located in a grid is located in
+    its parent's grid (all cells of a multi-cell location); a parentless object is not located in anybody's grid"""
+    objs = F.objs
+    ctx.check(tag + ": every grid points at its owner",
+              all(o.spatialGrid.armiObject is o for o in objs if o.spatialGrid is not None))
+    ctx.check(tag + ": a child's location that lives in a grid lives in the PARENT's grid (every cell of a multi-cell "
+                    "location)",
+              all(l.grid is None or l.grid is objs[F.par[i]].spatialGrid
+                  for i, o in enumerate(objs) if F.par[i] is not None for l in loc_cells(o.spatialLocator)))
+    ctx.check(tag + ": a parentless object is not located in anybody's grid",
+              all(o.spatialLocator.grid is None for i, o in enumerate(objs) if F.par[i] is None))
+    if not KNOWN_DEFECT_multi_location_detach:
+        ctx.check(tag + ": no cell of a parentless object's multi-cell location lives in a grid",
+                  all(l.grid is None for i, o in enumerate(objs) if F.par[i] is None
+                      for l in loc_cells(o.spatialLocator)))
+
+
+@harness("C01", bounds="typed tree HexAssembly (axial grid) > 1..2 HexBlocks (fuel+clad+duct / fuel+duct), each block "
+                       "with or without a PIN GRID of its own (symbolic Bools; components located in it by one shared "
+                       "multi-cell location / a coordinate location) x what is copied (the assembly; a block in place; a "
+                       "block after it was taken out of the assembly; symbolic) x deepcopy / pickle round trip, then "
+                       "ONE step on the copy (symbolic): nothing / remove a component of a copied block / add a fresh "
+                       "component to it / put the copied block into the original assembly (top)", stubs=STUBS,
+         max_paths=20000, instances={"quick": [dict(how="deepcopy+pickle")]})
+def copy_gridded_typed(ctx, how):
+    nbS = ctx.int("nblocks", 1, 2)
+    pins = [ctx.bool("block0 has a pin grid"), ctx.bool("block1 has a pin grid")]
+    wS = ctx.int("copied", 0, 4)       # 0: the assembly; 1, 2: that block, in place; 3, 4: that block, taken out first
+    eS = ctx.int("step", 0, 3)         # 0: none; 1: remove a component; 2: add a component; 3: copied block -> assembly
+    kS = ctx.int("component", 0, 2)    # which component of the block is removed (step 1)
+    for h in how.split("+"):
+        _copy_gridded_typed(ctx, nbS, pins, wS, eS, kS, h)
+
+
+def _copy_gridded_typed(ctx, nbS, pins, wS, eS, kS, how):
+    nb, w, e = int(nbS), int(wS), int(eS)
+    ctx.assume(w <= 2 * 2 and (w == 0 or (w - 1) % 2 < nb))
+    ctx.assume(e < 3 or w > 0)
+    D = dict(nb=nb, t0=0, m0=[True, True, True], m1=[True, True])
+    F = build_typed(D)
+    objs = F.objs
+    a = objs[0]
+    gridded = []
+    for k, bi in enumerate(F.kids[0]):
+        if pins[k]:                     # forks
+            give_pin_grid(objs[bi])
+            gridded.append(bi)
+    if w == 0:
+        r = 0
+    else:
+        r = F.kids[0][(w - 1) % 2]
+        if w >= 3:
+            a.remove(objs[r])
+            F.detach(r)
+    orig = objs[r]
+    cp = copy_of(orig, how)
+    check_copy(ctx, orig, cp, how)
+    m = graft_copy(ctx, F, r, cp, how)
+    if m is None:
+        return
+    top = m[r]
+    blocks2 = list(F.kids[top]) if r == 0 else [top]
+    rare = AND(nbS == 2, pins[0], NOT(pins[1]), wS == 0)
+    okKind = True
+    for s, i in m.items():
+        for x, y in zip(loc_cells(objs[s].spatialLocator), loc_cells(objs[i].spatialLocator)):
+            okKind &= type(x) is type(y) and (x.i, x.j, x.k) == (y.i, y.j, y.k)
+        okKind &= len(loc_cells(objs[s].spatialLocator)) == len(loc_cells(objs[i].spatialLocator))
+        okKind &= (objs[s].spatialGrid is None) == (objs[i].spatialGrid is None)
+    if ctx.canary:
+        okKind = AND(okKind, NOT(AND(rare, eS == 0)))
+    ctx.check(how + ": the copy has a grid where the original has one, and locations of the same kind and indices", okKind)
+    ctx.check(how + ": components of one copied block that shared a multi-cell location share ONE copied location",
+              all((objs[m[s]].spatialLocator is objs[m[t]].spatialLocator) ==
+                  (objs[s].spatialLocator is objs[t].spatialLocator)
+                  for s in m for t in m if F.par[s] is not None and F.par[s] == F.par[t]))
+    check_grids(ctx, F, how + " (fresh copy)")
+    gone = []
+    bi = blocks2[0]
+    if e == 1:
+        kids = list(F.kids[bi])
+        ctx.assume(kS < len(kids))
+        gone = [kids[int(kS)]]
+        objs[bi].remove(objs[gone[0]])
+        F.detach(gone[0])
+    elif e == 2:
+        ctx.assume(kS == 0)
+        ci = fresh_comp(F, "bond")
+        objs[bi].add(objs[ci])
+        F.attach(bi, ci)
+    elif e == 3:
+        ctx.assume(kS == 0)
+        a.add(objs[top])
+        F.attach(0, top)
+        ctx.check(how + ": the copied block sits on top of the assembly, located in the assembly's grid",
+                  a[len(a) - 1] is objs[top] and objs[top].spatialLocator.grid is a.spatialGrid)
+    else:
+        ctx.assume(kS == 0)
+    ctx.check(how + ": objects taken out have no parent and a detached location",
+              all(objs[g].parent is None and objs[g].spatialLocator.grid is None for g in gone))
+    tag = how + " then step %d" % e
+    check_forest(ctx, F, tag)
+    check_grids(ctx, F, tag)
+    check_typed_extras(ctx, F, tag + " (original)")
+    ctx.check(tag + ": every component's material points back at it",
+              all(c.material.parent is c for x in blocks2 for c in objs[x]))
+    for x in [0, r, top] + gone:
+        check_deep(ctx, objs[x], tag)
+
+
 def shape_rc(o):
     """shape with the names of Reactor / Core objects left out (their __deepcopy__ appends '-copy' on purpose)"""
     nm = None if type(o).__name__ in ("Reactor", "Core") else o.name
@@ -1303,13 +1536,19 @@ def shape_rc(o):
 
 
 @harness("C01", bounds="mini reactor (Reactor > Core with a hex grid > 1..2 assemblies (symbolic) > 1 block > 4 "
-                       "components); deepcopy / pickle of the reactor, the core, an assembly inside the core, a block",
+                       "components, the blocks with or without a pin grid of their own (symbolic Bool)); deepcopy / pickle "
+                       "of the reactor, the core, an assembly inside the core, a block",
          stubs=STUBS, instances={"quick": [dict(how="deepcopy"), dict(how="pickle")]})
 def copy_core_and_reactor(ctx, how):
     nS = ctx.int("nassemblies", 1, 2)
     wS = ctx.int("what", 0, 3)
+    pS = ctx.bool("blocks have a pin grid")
     cells = [(0, 0), (1, 0)][:int(nS)]
     r, core, assems = _build.mk_core(cells, nblocks=1)
+    if pS:
+        for x in assems:
+            for y in x:
+                give_pin_grid(y)
     what = ["reactor", "core", "assembly", "block"][int(wS)]
     orig = {"reactor": r, "core": core, "assembly": assems[-1], "block": assems[-1][0]}[what]
     cp = copy.deepcopy(orig) if how == "deepcopy" else pickle.loads(pickle.dumps(orig))
@@ -1322,8 +1561,11 @@ def copy_core_and_reactor(ctx, how):
     ctx.check("copy is detached", cp.parent is None)
     ctx.check("children point at the NEW parent", all(c.parent is x for x in b for c in x))
     ctx.check("grids point at the NEW owner", all(x.spatialGrid.armiObject is x for x in b if x.spatialGrid is not None))
-    ctx.check("located children live in the NEW parent's grid",
-              all(c.spatialLocator.grid is x.spatialGrid for x in b if x.spatialGrid is not None for c in x))
+    ctx.check("located children live in the NEW parent's grid (every cell of a multi-cell location)",
+              all(l.grid is x.spatialGrid for x in b if x.spatialGrid is not None for c in x
+                  for l in loc_cells(c.spatialLocator)))
+    ctx.check("the copy has a grid wherever the original has one",
+              [x.spatialGrid is None for x in a] == [x.spatialGrid is None for x in b])
     if what in ("assembly", "block"):
         ctx.check("the copy's own location is detached from the original's grid", cp.spatialLocator.grid is None)
     c2 = cp.core if what == "reactor" else (cp if what == "core" else None)
@@ -1365,8 +1607,8 @@ def forest_from(root):
     return F
 
 
-@harness("C01", bounds="mini reactor: Reactor > Core (third-core hex grid) > 1..2 assemblies (symbolic) > block > "
-                       "components; one operation: Core.add of a fresh assembly at one of 4 cells (symbolic; an "
+@harness("C01", bounds="mini reactor: Reactor > Core (third-core hex grid) > 1..2 assemblies (symbolic) > block "
+                       "(with or without a pin grid, symbolic Bool) > components; one operation: Core.add of a fresh assembly at one of 4 cells (symbolic; an "
                        "occupied cell must be refused) / Core.removeAssembly of any assembly", stubs=STUBS,
          instances={"quick": [dict(op="add"), dict(op="removeAssembly")]})
 def core_edit_step(ctx, op):
@@ -1385,7 +1627,12 @@ def core_copy_then_edit(ctx, op, how):
 def _core_step(ctx, op, how):
     nS = ctx.int("nassemblies", 1, 2)
     xS = ctx.int("operand", 0, 3)
+    pS = ctx.bool("blocks have a pin grid")
     r, core, assems = _build.mk_core([(0, 0), (1, 0)][:int(nS)], nblocks=1)
+    if pS:
+        for x in assems:
+            for y in x:
+                give_pin_grid(y)
     if how is not None:
         r0, core0 = r, core
         F0 = forest_from(r0)
@@ -1440,6 +1687,10 @@ def _core_step(ctx, op, how):
         ctx.check("the removed assembly keeps its blocks", same_objs(walk_pre(a), [F.objs[k] for k in F.subtree(gi)[1:]]))
     check_forest(ctx, F, op)
     check_deep(ctx, r, op)
+    ctx.check("every grid (core, assemblies, pin grids) points at its owner and locates that owner's children",
+              all(x.spatialGrid.armiObject is x and all(l.grid is x.spatialGrid for c in x
+                                                        for l in loc_cells(c.spatialLocator))
+                  for x in F.objs if x.spatialGrid is not None))
     ctx.check("the core's location table lists exactly its children",
               len(core.childrenByLocator) == len(core) and
               all(core.childrenByLocator.get(x.spatialLocator) is x for x in core))
